@@ -114,8 +114,16 @@ def run_case(idx, rng, P, rep):
     def stale_suffix(K_or_inst):
         return ''
 
+    sparse = rng.random() < 0.3
+    if sparse:
+        rep.count('sparsely_inspected_cases')
+
     def verify(step):
         for K in classes:
+            if sparse and rng.random() < 0.6:
+                # (in these cases a class may go uninspected for a long time - e.g. an abstract base nobody looks at while
+                #  its subclasses are in use)
+                continue
             gov = governing(K, Parameter)
             listed = list(K.param)
             vals = K.param.values()
